@@ -213,6 +213,22 @@ func failStub(_ *minify.M, w io.Writer, r io.Reader, _ map[string]string) error 
 	return errors.New("stub failure")
 }
 
+// scribbleFailStub behaves like a real minifier that fails late: it has already rewritten part
+// of its input buffer in place (as minify.Number, parse.ToLower, ... do) when it returns an error.
+func scribbleFailStub(_ *minify.M, w io.Writer, r io.Reader, _ map[string]string) error {
+	if br, ok := r.(interface{ Bytes() []byte }); ok {
+		b := br.Bytes()
+		for i := range b {
+			if i%2 == 0 {
+				b[i] = '#'
+			}
+		}
+	}
+	io.ReadAll(r)
+	w.Write([]byte("half"))
+	return errors.New("stub failure after rewriting the input in place")
+}
+
 func registries() []registry {
 	none := minify.New()
 	real := minify.New()
@@ -228,7 +244,12 @@ func registries() []registry {
 	fail.AddFunc("text/css", failStub)
 	fail.AddFunc("image/svg+xml", failStub)
 	fail.AddFunc("application/octet-stream", failStub)
-	return []registry{{"none", none}, {"real-css-svg", real}, {"stub", stub}, {"failing-stub", fail}}
+	scribble := minify.New()
+	scribble.AddFunc("text/plain", scribbleFailStub)
+	scribble.AddFunc("text/css", scribbleFailStub)
+	scribble.AddFunc("image/svg+xml", scribbleFailStub)
+	scribble.AddFunc("application/octet-stream", scribbleFailStub)
+	return []registry{{"none", none}, {"real-css-svg", real}, {"stub", stub}, {"failing-stub", fail}, {"failing-stub-that-rewrote-its-input", scribble}}
 }
 
 const guard = 16
@@ -456,7 +477,7 @@ func CheckMediatype(in string) (kind, what, out string) {
 
 // Run executes C18.
 func Run(c *core.Check) {
-	c.Rule = "DataURI: every payload of length <=2 over all 256 byte values and of length <=L over a 20-symbol structural alphabet, encoded five ways (minimal percent, RFC 3986 strict percent, full percent, padded base64, and sloppy: printable characters raw), under a list of media-type headers and four registries (none, real css+svg, stubs, failing stubs); plus malformed variants. Mediatype: every sequence of <=N tokens over a 12-token alphabet incl. quoted strings (balanced quotes only: an unterminated quote has no defined inside/outside), and every single byte and 576 byte pairs in three contexts. Non-trivial = output differs from input; distinct = distinct (registry,input)"
+	c.Rule = "DataURI: every payload of length <=2 over all 256 byte values and of length <=L over a 20-symbol structural alphabet, encoded five ways (minimal percent, RFC 3986 strict percent, full percent, padded base64, and sloppy: printable characters raw), under a list of media-type headers and five registries (none, real css+svg, stubs, failing stubs, failing stubs that have rewritten their input in place); plus malformed variants. Mediatype: every sequence of <=N tokens over a 12-token alphabet incl. quoted strings (balanced quotes only: an unterminated quote has no defined inside/outside), and every single byte and 576 byte pairs in three contexts. Non-trivial = output differs from input; distinct = distinct (registry,input)"
 	c.Assumptions = []string{"own RFC 2397 decoder", "expected payload = registry.Bytes(mediatype, decoded payload)", "percent-encoding validity: controls, space, non-ASCII, '#', '%' must be escaped"}
 	regs := registries()
 	// (a) all byte strings of length <= 2, two headers
